@@ -296,6 +296,7 @@ func ruleStateless(c *Ctx, rule string, root *ssa.Function) {
 	var recv, globs, opq []string
 	posR, posG := "", ""
 	dup := map[string]bool{}
+	pool := false
 	for _, m := range []map[string][]*effects.Effect{s.Writes, s.Appends} {
 		for _, l := range sortedStr(m) {
 			for _, e := range m[l] {
@@ -309,6 +310,10 @@ func ruleStateless(c *Ctx, rule string, root *ssa.Function) {
 						posR = posOf(c, e)
 					}
 				case effects.GlobalName(l) != "":
+					if isPoolEffect(e) {
+						pool = true
+						continue
+					}
 					if t := effects.GlobalName(l) + ": " + e.Chain(); !dup[t] {
 						dup[t] = true
 						globs = append(globs, t)
@@ -329,6 +334,9 @@ func ruleStateless(c *Ctx, rule string, root *ssa.Function) {
 	}
 	n := reachableCount(info, root)
 	key := funcKey(root)
+	if pool {
+		poolObligation(c, rule, key, info, root)
+	}
 	if len(recv) > 0 {
 		r.Bad(rule, key+"/receiver", posR, "no write through the receiver", strings.Join(recv, "; "))
 	} else {
@@ -358,10 +366,15 @@ func ruleStatelessGlobals(c *Ctx, rule string, root *ssa.Function) {
 	var globs, opq []string
 	pos := ""
 	dup := map[string]bool{}
+	pool := false
 	for _, m := range []map[string][]*effects.Effect{s.Writes, s.Appends} {
 		for _, l := range sortedStr(m) {
 			for _, e := range m[l] {
 				if g := effects.GlobalName(l); g != "" {
+					if isPoolEffect(e) {
+						pool = true
+						continue
+					}
 					if t := g + ": " + e.Chain(); !dup[t] {
 						dup[t] = true
 						globs = append(globs, t)
@@ -381,6 +394,9 @@ func ruleStatelessGlobals(c *Ctx, rule string, root *ssa.Function) {
 		}
 	}
 	key := funcKey(root)
+	if pool {
+		poolObligation(c, rule, key, info, root)
+	}
 	if len(globs) > 0 {
 		r.Bad(rule, key+"/globals", pos, "no write to a package-level variable", strings.Join(globs, "; "))
 	} else {
@@ -431,4 +447,140 @@ func statelessRoots(c *Ctx, rule string, names ...string) {
 		}
 		ruleStatelessGlobals(c, rule, fn)
 	}
+}
+
+// ---------------------------------------------------------------------------------------------
+// sync.Pool: scratch memory that survives from one call to the next
+
+// isPoolEffect: the write is the pool's own bookkeeping (Get / Put on a sync.Pool).
+func isPoolEffect(e *effects.Effect) bool {
+	return strings.HasPrefix(e.Kind, "ext:(*sync.Pool).")
+}
+
+// poolObligation: a function that takes scratch memory from a sync.Pool depends on nothing but its arguments only if
+// what the previous user left in that memory cannot be observed. Decided for the plain idiom: directly after
+// `p := pool.Get().(*T)` — in the same block, before p is used for anything else — the whole object is overwritten
+// with a value that does not depend on it (`*p = T{}`). Anything else (partial initialisation, a buffer that is cleared
+// by a loop, a slice re-sliced up to its capacity) is left undecided: the rule neither accepts nor refutes it.
+func poolObligation(c *Ctx, rule, key string, info *effectsInfo, root *ssa.Function) {
+	r := c.Run
+	gets := reachablePoolGets(info, root)
+	var unproven []string
+	pos := ""
+	for _, g := range gets {
+		if !poolResetProven(g) {
+			unproven = append(unproven, funcKey(g.Parent())+": "+c.Prog.Rel(g.Pos()))
+			if pos == "" {
+				pos = c.Prog.Rel(g.Pos())
+			}
+		}
+	}
+	want := "memory taken from a sync.Pool is completely overwritten before it is used"
+	if len(unproven) == 0 {
+		r.OK(rule, key+"/pooled-scratch", c.Prog.Rel(root.Pos()), want, fmt.Sprintf("%d Get site(s), each followed at once by a whole-object store", len(gets)), true)
+		return
+	}
+	r.Unknown(rule, key+"/pooled-scratch", pos, want, "not in the form `p := pool.Get().(*T); *p = T{}`: "+strings.Join(unproven, "; "))
+}
+
+func reachablePoolGets(info *effectsInfo, root *ssa.Function) []*ssa.Call {
+	var out []*ssa.Call
+	seen := map[*ssa.Function]bool{}
+	var walk func(f *ssa.Function)
+	walk = func(f *ssa.Function) {
+		if seen[f] || info.A.Sums[f] == nil {
+			return
+		}
+		seen[f] = true
+		for _, b := range f.Blocks {
+			for _, ins := range b.Instrs {
+				ci, ok := ins.(ssa.CallInstruction)
+				if !ok {
+					continue
+				}
+				if call, isCall := ins.(*ssa.Call); isCall {
+					if sc := call.Call.StaticCallee(); sc != nil && sc.String() == "(*sync.Pool).Get" {
+						out = append(out, call)
+					}
+				}
+				for _, callee := range info.A.CalleesOf(ci) {
+					walk(callee)
+				}
+			}
+		}
+	}
+	walk(root)
+	return out
+}
+
+// poolResetProven: get is `pool.Get()`; its only use is a type assertion to a pointer p, and the first use of p (same
+// block, nothing but the assertion in between that touches p) is the store of a constant or freshly built value to *p.
+func poolResetProven(get *ssa.Call) bool {
+	var ta *ssa.TypeAssert
+	for _, ref := range *get.Referrers() {
+		switch x := ref.(type) {
+		case *ssa.TypeAssert:
+			if ta != nil {
+				return false
+			}
+			ta = x
+		case *ssa.DebugRef:
+		default:
+			return false
+		}
+	}
+	if ta == nil {
+		return false
+	}
+	var p ssa.Value = ta
+	if ta.CommaOk {
+		p = nil
+		for _, ref := range *ta.Referrers() {
+			if ex, ok := ref.(*ssa.Extract); ok && ex.Index == 0 {
+				p = ex
+			}
+		}
+		if p == nil {
+			return false
+		}
+	}
+	if _, isPtr := p.Type().Underlying().(*types.Pointer); !isPtr {
+		return false
+	}
+	uses := map[ssa.Instruction]bool{}
+	for _, ref := range *p.Referrers() {
+		if _, dbg := ref.(*ssa.DebugRef); !dbg {
+			uses[ref] = true
+		}
+	}
+	b := ta.Block()
+	started := false
+	for _, ins := range b.Instrs {
+		if ins == ssa.Instruction(ta) {
+			started = true
+			continue
+		}
+		if !started || !uses[ins] {
+			continue
+		}
+		// the first use of p
+		if _, isDefer := ins.(*ssa.Defer); isDefer {
+			continue // `defer pool.Put(p)` registers the return of the object; it runs after everything else
+		}
+		st, ok := ins.(*ssa.Store)
+		if !ok || st.Addr != p {
+			return false
+		}
+		switch v := st.Val.(type) {
+		case *ssa.Const:
+			return true
+		case *ssa.UnOp:
+			// a composite literal spilled to a local and loaded: its address must be a fresh local
+			if al, ok := v.X.(*ssa.Alloc); ok && v.Op == token.MUL && !al.Heap {
+				return true
+			}
+		}
+		return false
+	}
+	return false
 }
